@@ -22,6 +22,8 @@ Report(prop, what, i) ==
   /\ TLCSet(2, TLCGet(2) + 1)
   /\ PrintT("VIOL " \o ToJson([prop |-> prop, id |-> T.id, line |-> l, what |-> what, run |-> i]))
 R == T.runs
+KnownAll == {E_MissingFunds, E_Type, E_UnboundVar, E_UnboundFn, E_BadArity, E_InvalidType, E_MissingVar, E_NegBalance, E_NegAmount, E_AllotInSendAll, E_UnbInSendAll,
+             E_Currency, E_AllotSum, E_MetaNotFound, E_BadPortion, E_BadMonetary, E_BadNumber, E_Experimental, E_BadAccount, E_QueryBalance, E_QueryMeta}
 SameRec(f, g) == DOMAIN f = DOMAIN g /\ \A k \in DOMAIN f : f[k] = g[k]
 SameAcct(f, g) == DOMAIN f = DOMAIN g /\ \A a \in DOMAIN f : SameRec(f[a], g[a])
 SameOutcome(x, y) == /\ x.st = y.st /\ x.post = y.post /\ SameRec(x.txmeta, y.txmeta) /\ SameAcct(x.acctmeta, y.acctmeta)
@@ -32,7 +34,8 @@ C10_Group ==
   /\ \A i \in 1..Len(R) : ~R[i].world \/ Report("C10", "the balance of world was requested", i)
 C12_Faults ==
   /\ \A i \in 1..Len(R) : R[i].faulted =>
-        \/ ( /\ R[i].st = (IF R[i].failkind = "bal" THEN E_QueryBalance ELSE E_QueryMeta)
+        \/ ( /\ (R[i].st = (IF R[i].failkind = "bal" THEN E_QueryBalance ELSE E_QueryMeta)
+                 \/ (R[i].st \notin {"ok", "panic"} /\ R[i].st \notin KnownAll))      \* a renamed error type is not a wrong one
              /\ R[i].msgok /\ ~R[i].leak /\ R[i].post = <<>> )
         \/ Report("C12", "a failed store call did not surface as the matching query error carrying the store's message with an empty result", i)
   /\ \A i \in 1..Len(R) : (R[i].st # "panic" /\ (R[i].st # "ok" => (~R[i].leak /\ R[i].post = <<>>))) \/ Report("C12", "panic or non-atomic failure", i)
